@@ -12,18 +12,23 @@
 EXTENDS Integers, Sequences, FiniteSets, TLC, Json
 
 UpgradeC == {"absent", "websocket", "other", "upper"}           \* Upgrade: websocket / h2c / WebSocket
-AcceptC  == {"absent", "exact", "html", "withparam", "list", "upper"}
+AcceptC  == {"absent", "exact", "html", "withparam", "list", "upper",
+             "lines-exact-first", "lines-exact-second"}     \* two Accept header lines, one of them exact
 MethodC  == {"GET", "POST", "OPTIONS"}
 DocC     == {"nil", "set"}
 DefaultC == {"nil", "set"}
 
+\* Two Accept lines form one field value "x, y": whether that "is" application/nostr+json is not
+\* claimed (either), but the answer must then be the document or the default handler, nothing else.
 Route(u, a) == IF u # "absent" THEN "relay"
-               ELSE IF a = "exact" THEN "nip11" ELSE "default"
+               ELSE IF a = "exact" THEN "nip11"
+               ELSE IF a \in {"lines-exact-first", "lines-exact-second"} THEN "either" ELSE "default"
 
 \* what the client must observe
 Outcome(u, a, doc, def) ==
   CASE Route(u, a) = "relay"   -> IF u \in {"websocket", "upper"} THEN "websocket-session" ELSE "relay-refuses-upgrade"
     [] Route(u, a) = "nip11"   -> IF doc = "set" THEN "document" ELSE "empty-document"
+    [] Route(u, a) = "either"  -> (IF doc = "set" THEN "document" ELSE "empty-document") \o "|" \o (IF def = "set" THEN "default-handler" ELSE "greeting")
     [] OTHER                   -> IF def = "set" THEN "default-handler" ELSE "greeting"
 
 Requests == {[upgrade |-> u, accept |-> a, method |-> m, doc |-> d, def |-> f, outcome |-> Outcome(u, a, d, f)] :
